@@ -34,7 +34,8 @@ class Feature:
             newfeature.data = data
         except Exception:
             # a refused feature must not stay behind half-created
-            h5parent.delete(id_)
+            # (the container group stays: handles are bound to it)
+            h5parent.delete(id_, delete_if_empty=False)
             raise
         newfeature._h5group.set_attr("created_at",
                                      util.time_to_str(util.now_int()))
